@@ -38,10 +38,10 @@ WORDS = ['users', 'orders', 'Items', 'x', 'T1', 'a_b', '_tmp', 'n42', 'ID', 'col
          'merchant', 'country_code', 'A', 'b2', 'CamelCase', '__', '007']
 QUOTED = ['my table', 'a-b', 'x#1', 'br{ace}', 'sq[uare]', "it's", 'naïve', '日本', 'a/b', 'semi;colon',
           'a:b', '50%', 'q?', '<tag>', 'a=b', '{0}', '{x}', 'a  b', "''", '`tick`', 'ünï', '@at',
-          '// not a comment', '/* x */', 'a|b', '$1']
+          '// not a comment', '/* x */', 'a|b', '$1', '{c}', '{name}', '%s', '-1', 'a+b']
 KW_PREFIXED = ['notes', 'notebook', 'indexes_x', 'Note1', 'note_version']
 RESERVED_LIST = sorted(RESERVED)
-SCHEMAS = ['public', 'public', 'public', 's1', 'Sales', 'my schema', 'enum', 'é']
+SCHEMAS = ['public', 'public', 'public', 's1', 'Sales', 'my schema', 'enum', 'é', 'Public', 'PUBLIC', 'sales']
 NAME_ALPHA = "abcXYZ019_ -#{}[]'/:;%?<>=`@|$éß日."
 TEXT_ALPHA = "abc XYZ019_-#{}[]'\"/:;%\\?<>=`@|$éß日.,()*!"
 ACTIONS = ['cascade', 'restrict', 'set null', 'set default', 'no action']
@@ -104,7 +104,8 @@ def line_text(features, min_size=0, max_size=24):
     t = st.text(alphabet=TEXT_ALPHA, min_size=min_size, max_size=max_size)
     specials = st.sampled_from(["it's", 'say "hi"', 'back\\slash', 'end\\', "'", '"', '\\', '`', '{x}', '{0}',
                                 '// c', '/* c */', "'; DROP TABLE t; --", ']', '[', '}', '#fff', 'a\\nb',
-                                '\\\\', "''", '""', 'é日本', ' lead', 'trail ', '%s', "\\'", 'x' * 60])
+                                '\\\\', "''", '""', 'é日本', ' lead', 'trail ', '%s', "\\'", 'x' * 60,
+                                '123', '1.5', '-1', '{c}', '{name}', '%(x)s', '${x}', 'Table t {', 'Note: x', '[ref: > a.b]', 'NULL?'])
     pools = [t, t, specials]
     if _has(features, 'triple_quote_text'):
         pools.append(st.sampled_from(["'''", "a'''b", "''''", "x'''"]))
@@ -171,6 +172,14 @@ QUICK = Sizes()
 THOROUGH = Sizes(tables=6, columns=7, indexes=4, enums=3, items=5, refs=8, groups=3, stickies=3, props=4)
 
 
+def case_twin(n: str):
+    """a different name that equals n when letter case is ignored (names are case-sensitive everywhere), or None"""
+    for cand in (n.swapcase(), n.upper(), n.lower(), n.capitalize()):
+        if cand != n and cand.lower() == n.lower():
+            return cand
+    return None
+
+
 @st.composite
 def schemas(draw, features: FrozenSet[str] = BASE_FEATURES, sizes: Sizes = QUICK, min_tables: int = 0,
             want_refs: bool = True) -> ASchema:
@@ -186,9 +195,13 @@ def schemas(draw, features: FrozenSet[str] = BASE_FEATURES, sizes: Sizes = QUICK
         s1 = ekeys[1][0] if ekeys[1][0] != s0 else next(x for x in SCHEMAS if x != s0)
         if (s1, n0) not in ekeys:
             ekeys[1] = (s1, n0)
+    elif len(ekeys) >= 2 and case_twin(ekeys[0][1]) and draw(st.integers(0, 3)) == 0 and (ekeys[0][0], case_twin(ekeys[0][1])) not in ekeys:
+        ekeys[1] = (ekeys[0][0], case_twin(ekeys[0][1]))
     enums = []
     for sch, nm in ekeys:
         inames = draw(st.lists(names(F, bare_risky=False), min_size=1, max_size=sizes.items, unique=True))
+        if case_twin(inames[0]) and case_twin(inames[0]) not in inames and draw(st.integers(0, 4)) == 0:
+            inames.insert(draw(st.integers(0, len(inames))), case_twin(inames[0]))
         items = [AEnumItem(n, draw(st.none() | note_text(F, ml_set))) for n in inames]
         enums.append(AEnum(sch, nm, items))
     enum_keys = {(e.schema, e.name) for e in enums}
@@ -214,12 +227,18 @@ def schemas(draw, features: FrozenSet[str] = BASE_FEATURES, sizes: Sizes = QUICK
         s1 = tkeys[1][0] if tkeys[1][0] != s0 else next(x for x in SCHEMAS if x != s0)
         if (s1, n0) not in tkeys:
             tkeys[1] = (s1, n0)
+    elif len(tkeys) >= 2 and case_twin(tkeys[0][1]) and draw(st.integers(0, 3)) == 0 and (tkeys[0][0], case_twin(tkeys[0][1])) not in tkeys:
+        # ... and names that differ in letter case only are where case-insensitive shortcuts break
+        tkeys[1] = (tkeys[0][0], case_twin(tkeys[0][1]))
     tnames = {n for _, n in tkeys}
     used_alias = set()
     tables: List[ATable] = []
     for sch, nm in tkeys:
         cnames = draw(st.lists(names(F, column=True, bare_risky=False), min_size=1, max_size=sizes.columns,
                                unique=True))
+        k0 = draw(st.integers(0, len(cnames) - 1))
+        if case_twin(cnames[k0]) and case_twin(cnames[k0]) not in cnames and draw(st.integers(0, 3)) == 0:
+            cnames.insert(draw(st.integers(0, len(cnames))), case_twin(cnames[k0]))
         cols = []
         for cn in cnames:
             flags = draw(st.tuples(*[st.booleans()] * 4)) if draw(st.booleans()) else (False,) * 4
